@@ -51,13 +51,9 @@ void run_it_rech_u(pbt::Source& src, const Cfg& cfg);
 void run_it_rech_s(pbt::Source& src, const Cfg& cfg);
 void run_it_recs_u(pbt::Source& src, const Cfg& cfg);
 void run_it_recs_s(pbt::Source& src, const Cfg& cfg);
-// ... the same for the pairs 4..7 (second half of the template matrix, own TUs: C05_merge_it_*_b.cpp)
+// ... pairs 4..7 of the 8-byte record (second half of its template matrix, own TUs: C05_merge_it_rec8_*_b.cpp)
 void run_it_rec8_u_b(pbt::Source& src, const Cfg& cfg);
 void run_it_rec8_s_b(pbt::Source& src, const Cfg& cfg);
-void run_it_rech_u_b(pbt::Source& src, const Cfg& cfg);
-void run_it_rech_s_b(pbt::Source& src, const Cfg& cfg);
-void run_it_recs_u_b(pbt::Source& src, const Cfg& cfg);
-void run_it_recs_s_b(pbt::Source& src, const Cfg& cfg);
 
 // ---------------------------------------------------------------- element types
 
@@ -1173,18 +1169,40 @@ void run_case(pbt::Source& src, const Cfg& cfg, Cmp cmp) {
     run_case_x<E, VecKind<E, RawPtr>, VecKind<E, RawPtr>, false, Stable>(src, cfg, cmp);
 }
 
-//! target merge_iters: dispatch on the (input kind, output kind) pair drawn by the dispatcher; the matrix is split in
-//! two halves (pairs 0..3 / 4..7) that are instantiated in different TUs
+//! target merge_iters: dispatch on the (input kind, output kind) pair. To bound the compile time the 8-byte record is
+//! instantiated with all eight pairs (two TUs per stability: pairs 0..3 / 4..7), the two owning element types with
+//! four pairs each (every kind occurs with every type on the input or the output side): the dispatcher maps the drawn
+//! pair with IT_PAIR_OF_TYPE before calling.
+static const int IT_PAIR_OF_TYPE[3][8] = {{0, 1, 2, 3, 4, 5, 6, 7},  // rec8
+                                          {5, 7, 2, 3, 3, 5, 2, 7},  // rech: stride->deque, vector->deque, deque->deque, reverse_vector->reverse_deque
+                                          {0, 1, 6, 4, 4, 0, 6, 1}}; // recs: deque->vector, reverse_vector->vector, pointer->reverse_vector, reverse_deque->stride
 template <class E, bool Stable>
 void run_iters(pbt::Source& src, const Cfg& cfg) {
     OwnCmp<E> cmp(cfg.desc);
-    switch (cfg.pair) {
-    case 0: run_case_x<E, DequeKind<E>, VecKind<E, false>, true, Stable>(src, cfg, cmp); break;
-    case 1: run_case_x<E, ReverseKind<E, false>, VecKind<E, false>, true, Stable>(src, cfg, cmp); break;
-    case 2: run_case_x<E, StrideKind<E>, DequeKind<E>, true, Stable>(src, cfg, cmp); break;
-    default: run_case_x<E, VecKind<E, false>, DequeKind<E>, true, Stable>(src, cfg, cmp); break;
+    if constexpr (std::is_same<E, Rec8>::value) {
+        switch (cfg.pair) {
+        case 0: run_case_x<E, DequeKind<E>, VecKind<E, false>, true, Stable>(src, cfg, cmp); break;
+        case 1: run_case_x<E, ReverseKind<E, false>, VecKind<E, false>, true, Stable>(src, cfg, cmp); break;
+        case 2: run_case_x<E, StrideKind<E>, DequeKind<E>, true, Stable>(src, cfg, cmp); break;
+        default: run_case_x<E, VecKind<E, false>, DequeKind<E>, true, Stable>(src, cfg, cmp); break;
+        }
+    } else if constexpr (std::is_same<E, RecH>::value) {
+        switch (cfg.pair) {
+        case 2: run_case_x<E, StrideKind<E>, DequeKind<E>, true, Stable>(src, cfg, cmp); break;
+        case 3: run_case_x<E, VecKind<E, false>, DequeKind<E>, true, Stable>(src, cfg, cmp); break;
+        case 5: run_case_x<E, DequeKind<E>, DequeKind<E>, true, Stable>(src, cfg, cmp); break;
+        default: run_case_x<E, ReverseKind<E, false>, ReverseKind<E, true>, true, Stable>(src, cfg, cmp); break;
+        }
+    } else {
+        switch (cfg.pair) {
+        case 0: run_case_x<E, DequeKind<E>, VecKind<E, false>, true, Stable>(src, cfg, cmp); break;
+        case 1: run_case_x<E, ReverseKind<E, false>, VecKind<E, false>, true, Stable>(src, cfg, cmp); break;
+        case 4: run_case_x<E, VecKind<E, true>, ReverseKind<E, false>, true, Stable>(src, cfg, cmp); break;
+        default: run_case_x<E, ReverseKind<E, true>, StrideKind<E>, true, Stable>(src, cfg, cmp); break;
+        }
     }
 }
+//! pairs 4..7 of the 8-byte record
 template <class E, bool Stable>
 void run_iters_b(pbt::Source& src, const Cfg& cfg) {
     OwnCmp<E> cmp(cfg.desc);
